@@ -82,6 +82,9 @@ type obs struct {
 	done    bool
 	notes   []string
 	reasons []error
+	// further relations of the same process (one process can hold several links or monitors
+	// on the lost node: each one is reported on its own)
+	more []*obs
 }
 
 func propFaults(t *rapid.T) {
@@ -93,6 +96,14 @@ func propFaults(t *rapid.T) {
 	observers := make([]*obs, nobs)
 	for i := range observers {
 		observers[i] = &obs{monitor: rapid.Bool().Draw(t, "monitor"), kind: rapid.IntRange(0, 4).Draw(t, "identity")}
+		used := map[int]bool{observers[i].kind: true}
+		for n := rapid.IntRange(0, 2).Draw(t, "more_relations"); n > 0; n-- {
+			k := rapid.IntRange(0, 4).Draw(t, "more_identity")
+			if !used[k] {
+				used[k] = true
+				observers[i].more = append(observers[i].more, &obs{monitor: observers[i].monitor, kind: k})
+			}
+		}
 	}
 	withCall := rapid.IntRange(0, 2).Draw(t, "pending_call") == 0
 	fault := rapid.IntRange(0, 6).Draw(t, "fault") // 0 disconnect A 1 disconnect B 2 stop B 3 stop-force B 4,5 cut at byte k 6 target terminates
@@ -151,7 +162,6 @@ func propFaults(t *rapid.T) {
 	cleanup = append(cleanup, spawner)
 	for i, o := range observers {
 		i, o := i, o
-		want := fmt.Sprintf("%v", idOf(o.kind))
 		// observers are spawned by a process (not by the node): an exit signal whose sender is the
 		// node core would otherwise count as coming from the parent and could not be trapped
 		ocfg := &kit.ActorConfig{Label: fmt.Sprintf("obs%d", i), Probe: probe, Trap: true, Quiet: true,
@@ -183,10 +193,16 @@ func propFaults(t *rapid.T) {
 					return true, nil
 				}
 				mu.Lock()
-				if k == want {
-					o.notes = append(o.notes, fmt.Sprintf("%T", msg))
-					o.reasons = append(o.reasons, reason)
-				} else {
+				matched := false
+				for _, r := range append([]*obs{o}, o.more...) {
+					if k == fmt.Sprintf("%v", idOf(r.kind)) {
+						r.notes = append(r.notes, fmt.Sprintf("%T", msg))
+						r.reasons = append(r.reasons, reason)
+						matched = true
+						break
+					}
+				}
+				if !matched {
 					o.notes = append(o.notes, fmt.Sprintf("FOREIGN %T %s", msg, k))
 				}
 				mu.Unlock()
@@ -207,38 +223,40 @@ func propFaults(t *rapid.T) {
 	var wg sync.WaitGroup
 	for _, o := range observers {
 		wg.Add(1)
-		go func(o *obs) {
+		go func(first *obs) {
 			defer wg.Done()
-			id := idOf(o.kind)
-			var rerr error
-			e := kit.InProc(s.a, o.pid, func(a *kit.Actor) {
-				switch v := id.(type) {
-				case gen.Event:
-					if o.monitor {
-						_, rerr = a.MonitorEvent(v)
-					} else {
-						_, rerr = a.LinkEvent(v)
+			for _, o := range append([]*obs{first}, first.more...) {
+				id := idOf(o.kind)
+				var rerr error
+				e := kit.InProc(s.a, first.pid, func(a *kit.Actor) {
+					switch v := id.(type) {
+					case gen.Event:
+						if o.monitor {
+							_, rerr = a.MonitorEvent(v)
+						} else {
+							_, rerr = a.LinkEvent(v)
+						}
+					case gen.Atom:
+						if o.monitor {
+							rerr = a.MonitorNode(v)
+						} else {
+							rerr = a.LinkNode(v)
+						}
+					default:
+						if o.monitor {
+							rerr = a.Monitor(id)
+						} else {
+							rerr = a.Link(id)
+						}
 					}
-				case gen.Atom:
-					if o.monitor {
-						rerr = a.MonitorNode(v)
-					} else {
-						rerr = a.LinkNode(v)
-					}
-				default:
-					if o.monitor {
-						rerr = a.Monitor(id)
-					} else {
-						rerr = a.Link(id)
-					}
+				})
+				if e != nil {
+					rerr = e
 				}
-			})
-			if e != nil {
-				rerr = e
+				mu.Lock()
+				o.err, o.done = rerr, true
+				mu.Unlock()
 			}
-			mu.Lock()
-			o.err, o.done = rerr, true
-			mu.Unlock()
 		}(o)
 	}
 	var callErr error
@@ -313,9 +331,11 @@ func propFaults(t *rapid.T) {
 	kit.WaitUntil(3*time.Second, func() bool {
 		mu.Lock()
 		defer mu.Unlock()
-		for _, o := range observers {
-			if o.err == nil && len(o.notes) == 0 && !(fault == 6 && (o.kind == 4)) {
-				return false
+		for _, first := range observers {
+			for _, o := range append([]*obs{first}, first.more...) {
+				if o.err == nil && len(o.notes) == 0 && !(fault == 6 && (o.kind == 4)) {
+					return false
+				}
 			}
 		}
 		return true
@@ -325,8 +345,20 @@ func propFaults(t *rapid.T) {
 	mu.Lock()
 	defer mu.Unlock()
 	var problems []string
+	type rel struct {
+		i int
+		o *obs
+	}
+	var rels []rel
 	for i, o := range observers {
-		what := fmt.Sprintf("observer %d (%s on identity kind %d)", i, map[bool]string{true: "monitor", false: "link"}[o.monitor], o.kind)
+		rels = append(rels, rel{i, o})
+		for _, m := range o.more {
+			rels = append(rels, rel{i, m})
+		}
+	}
+	for _, r := range rels {
+		i, o := r.i, r.o
+		what := fmt.Sprintf("observer %d (%s on identity kind %d, %d relations in that process)", i, map[bool]string{true: "monitor", false: "link"}[o.monitor], o.kind, 1+len(observers[i].more))
 		for _, n := range o.notes {
 			if strings.HasPrefix(n, "FOREIGN") {
 				problems = append(problems, fmt.Sprintf("%s received a notification for something else: %s", what, n))
